@@ -314,6 +314,14 @@ func (cl *Cluster) PromoteLocked(r *Node) {
 	old.db = nil
 }
 
+// ReattachLocked makes replica r a replica of master m (replica migration). Its data is the new master's from now on.
+func (cl *Cluster) ReattachLocked(r, m *Node) {
+	if r.master == nil || m.master != nil {
+		return
+	}
+	r.master = m
+}
+
 // Events returns a copy of the event log.
 func (cl *Cluster) Events() []Event {
 	cl.logMu.Lock()
